@@ -53,6 +53,15 @@ for _pid, _txt in (('C01', 'parsed AST == expected AST built through the API for
                    ('C19', 'hpl.cli.main in process: exit status, strictly valid JSON (null for inf/nan), field-for-field mirror of the AST')):
     CLAIMED[_pid] = dict(category='exploration', technique='bounded stand-in: the deciding part lies in third-party code (Lark; attrs.asdict/json/argparse) that contracts on /repo cannot decide; native oracle comparison on generated inputs',
         text='BOUNDED, nothing proved at this commit: ' + _txt, note='A-LARK / A-3P; sizes in the evidence', ref='DESIGN.md sections 6 and 7')
+_PC = 'contract-based deductive verification (pyvc + z3) of the PropertyTransformer callbacks under the child shapes the grammar rules give them; ground checks of the generated grammar module and operator tables; bounded stand-in for the Lark link'
+CLAIMED['C01'].update(category='other', technique=_PC,
+    text='Proved: the tree-building callbacks - _lr_binop for each of the 16 operator tokens (operator identity, left/right operand order, casts), negation/minus, literals, references, field and index chains, range-bound exclusivity, the role mapping of all five patterns with INF default, ms->s conversion, scope roles, disjunction membership and source order (widths 2-4). Ground: grammar.py means the same as the generator output; operator tables match the grammar tokens. Bounded (A-LARK): which tree the LALR parser assigns to a text (precedence, associativity, layout, reject). Open finding F7.')
+CLAIMED['C07'].update(category='other', technique=_PC,
+    text='Proved: on every path of the callbacks under contract only the documented exception classes escape (asserts, subscripts, sum-type attribute accesses, enum lookups discharged under the rule-derived child shapes). Bounded (A-LARK): exceptions of the parsing library, recursion depth, statelessness of a parser object (fuzzing, failing-then-valid sequences against a fresh parser).')
+CLAIMED['C18'].update(category='other', technique=_PC,
+    text='Proved: hpl_file returns exactly its children in order; the annotation callbacks build their (key, value) pairs; metadata() raises HplSyntaxError iff a key repeats and otherwise returns exactly the given mapping. Bounded (A-LARK): segmentation of a file into properties, attribution of annotations, error class of an invalid member.')
+CLAIMED['C19'].update(category='other', technique='ground evaluation + pyvc contract of the value serializer; bounded in-process runs of hpl.cli.main (third-party: attrs.asdict, json, argparse)',
+    text='Proved/ground: _ast_object_serializer maps enum members to values, non-finite floats to None, leaves finite numbers and other values unchanged. Bounded (A-3P): exit status 0 iff the argument parses, one strictly valid JSON document mirroring the AST, no JSON on failure.')
 NOT_YET = {}
 
 
